@@ -196,7 +196,7 @@ func runC03(r *mc.Run) {
 		lev := c.Choose("levels", 3)
 		memb := c.Choose("member", 5)
 		sigf := c.Choose("sigfield", 8)
-		hdr := c.Choose("header", 8)
+		hdr := c.Choose("header", 14)
 		id := "menu/" + c.ID()
 		if !r.Want(id) {
 			return
@@ -334,6 +334,18 @@ func runC03(r *mc.Run) {
 			header = map[string][]string{d.hdrKey: {hv + "garbage"}}
 		case 7:
 			header = map[string][]string{d.hdrKey: {}}
+		case 8: // the header repeated, all but one value blank (exactly one issuer chain is expected)
+			header = map[string][]string{d.hdrKey: {"", hv}}
+		case 9:
+			header = map[string][]string{d.hdrKey: {hv, ""}}
+		case 10:
+			header = map[string][]string{d.hdrKey: {" ", hv}}
+		case 11:
+			header = map[string][]string{d.hdrKey: {"", hv, ""}}
+		case 12: // two different chains
+			header = map[string][]string{d.hdrKey: {hv, world.IssuerChainHeader(F.Tcb, F.Root)}}
+		case 13:
+			header = map[string][]string{d.hdrKey: {world.IssuerChainHeader(F.Tcb, F.Root), hv}}
 		}
 		g := w.Getter.Clone()
 		g.Responses[d.url] = world.Response{Header: header, Body: body}
